@@ -19,7 +19,7 @@ func (c10) Size(tier string) Size {
 	return Size{Batches: 8, Cases: 1200}
 }
 func (c10) Rule() string {
-	return "case = (kind, nullable) + a pair (resource value, filter value) drawn from the boundary pools (equal, adjacent, extreme, shared prefixes, nil on either side) evaluated under EVERY operator (= != < <= > >= in has and unknown ones) on a soft resource AND on a struct-backed one holding the same values, plus relationship leaves and random and/or trees (depth <= 8, chains to depth 200 in thorough). Oracle 1: my own evaluator (math/big, bytes.Compare, instants; nil equals only nil and is never ordered; bool and to-many never ordered; unknown operator false; empty and = true, empty or = false). Oracle 2: laws on the library's own answers (trichotomy, != is not =, <= is < or =, antisymmetry under swapping sides, soft == wrapped). Directed: pool x pool x operator product per kind (first 40 pool values per kind in quick, the whole pool in thorough). Non-trivial = distinct (kind, op, value pair) with a non-nil pair, or a tree with >= 2 leaves."
+	return "case = (kind, nullable) + a pair (resource value, filter value) drawn from the boundary pools (equal, adjacent, extreme, shared prefixes, nil on either side) evaluated under EVERY operator (= != < <= > >= in has and unknown ones) on a soft resource AND on a struct-backed one holding the same values, plus relationship leaves and random and/or trees (depth <= 8, chains to depth 200 in thorough). Oracle 1: my own evaluator (math/big, bytes.Compare, instants; nil equals only nil and is never ordered; bool and to-many never ordered; unknown operator false; empty and = true, empty or = false). Oracle 2: laws on the library's own answers (trichotomy, != is not =, <= is < or =, antisymmetry under swapping sides, soft == wrapped). Also: degenerate leaves (zero filter, operator without field, 'AND'/'Or'/'IN'/'HAS' and padded operators = unknown operators), one built *Filter node used at several places of one tree (and(g,g), or(g,g), and(g,or(g,x)), or(and(g,x),and(g,y))), re-evaluation of a built filter after its leaf values were changed in place, filter value being the very object the resource returned. Directed: pool x pool x operator product per kind (first 40 pool values per kind in quick, the whole pool in thorough). Non-trivial = distinct (kind, op, value pair) with a non-nil pair, or a tree with >= 2 leaves."
 }
 func (c10) Assumptions() []string {
 	return []string{"filters are well-typed: the filter value has exactly the attribute's Go type (typed nil for nil), 'in' gets a list on a to-one, 'has' a string on a to-many",
@@ -218,6 +218,44 @@ func (m c10) reuse(c *Ctx, r *RNG, base *TypeSpec, res *ResSpec, tree *FSpec) {
 	}
 }
 
+// shared puts the SAME built *Filter node at several places of one tree (a filter assembled from reusable parts):
+// and(g,g) and or(g,g) answer like g, and(g, or(g, x)) like g, or(and(g,x), and(g,y)) like g && (x || y).
+func (m c10) shared(c *Ctx, r *RNG, base *TypeSpec, res *ResSpec, tree *FSpec, g bool) {
+	x, y := genLeaf(r, base, res), genLeaf(r, base, res)
+	vx, vy := evalFilter(&x, base, res), evalFilter(&y, base, res)
+	var target jsonapi.Resource
+	if pi := Guard(func() { target = buildResource(base, res) }); pi != nil {
+		return
+	}
+	node := tree.build()
+	and := func(k ...*jsonapi.Filter) *jsonapi.Filter { return &jsonapi.Filter{Op: "and", Val: k} }
+	or := func(k ...*jsonapi.Filter) *jsonapi.Filter { return &jsonapi.Filter{Op: "or", Val: k} }
+	bx, by := x.build(), y.build()
+	forms := []struct {
+		name string
+		f    *jsonapi.Filter
+		want bool
+	}{
+		{"and(g,g)", and(node, node), g},
+		{"or(g,g)", or(node, node), g},
+		{"and(g,or(g,x))", and(node, or(node, bx)), g},
+		{"or(and(g,x),and(g,y))", or(and(node, bx), and(node, by)), g && (vx || vy)},
+		{"and(or(x,g),or(y,g),g)", and(or(bx, node), or(by, node), node), g},
+	}
+	for _, fm := range forms {
+		var got bool
+		if pi := Guard(func() { got = fm.f.IsAllowed(target) }); pi != nil {
+			c.Violate("panic@"+pi.Frame+"/"+panicClass(pi.Val)+"/shared-node", "%s: %s", fm.name, pi)
+			return
+		}
+		c.Count("shared_node_trees")
+		if got != fm.want {
+			c.Violate("semantics/shared-node/"+fm.name, "%s with the same *Filter g used at every g: IsAllowed=%v, read as logic %v (g=%v x=%v y=%v); g=%s x=%s y=%s resource %s", fm.name, got, fm.want, g, vx, vy, clip(tree.String(), 800), x.String(), y.String(), jsonStr(res))
+			return
+		}
+	}
+}
+
 func cloneKids(in []FSpec) []FSpec {
 	out := make([]FSpec, len(in))
 	for i := range in {
@@ -344,6 +382,7 @@ func (m c10) Case(c *Ctx, r *RNG) {
 	}
 	c.Count("trees")
 	m.reuse(c, r, &base, res, &tree)
+	m.shared(c, r, &base, res, &tree, want)
 	if tree.Op != "and" && tree.Op != "or" {
 		c.Count("leaf/" + tree.Op)
 	}
